@@ -134,6 +134,9 @@ type classAgg struct {
 	Seq   int64
 	Msg   string
 	Case  any
+	// History marks a finding whose witness does not fail alone but whose class comes
+	// back on every run of the whole sub-check (hidden state in the code under test).
+	History bool
 }
 
 // KnownEntry is one entry of known_findings.json.
@@ -282,8 +285,35 @@ func Main(chk *Check, tier string, seed int64, replayPath string) int {
 		sub := subByName[agg.Sub]
 		ok, why := reproduces(sub, tier, agg)
 		if !ok {
-			fmt.Fprintf(os.Stderr, "harness error: finding %s in %s/%s does not replay deterministically: %s\n", agg.Class, chk.Property, agg.Sub, why)
-			return 2
+			// The witness does not fail when executed alone. Either the harness is not
+			// deterministic (a harness error), or the code under test keeps hidden state
+			// across calls (a cache, a pooled buffer, a lazily advanced global), so that the
+			// failure needs the history of calls that preceded it. Decide by re-running the
+			// whole sub-check twice: the class must come back every time.
+			recurs := 0
+			for i := 0; i < 2; i++ {
+				_, _, cls, err := runSub(sub, tier, deadline)
+				if err != nil {
+					continue
+				}
+				// the same class, or - hidden state such as a recycled buffer can surface in a
+				// different cell each time - at least one finding that is not a listed known class
+				again := cls[agg.Class] != nil
+				for c := range cls {
+					if _, isKnown := known[c]; !isKnown {
+						again = true
+					}
+				}
+				if again {
+					recurs++
+				}
+			}
+			if recurs < 2 {
+				fmt.Fprintf(os.Stderr, "harness error: finding %s in %s/%s does not replay deterministically (%s) and came back in only %d of 2 re-runs of the sub-check\n", agg.Class, chk.Property, agg.Sub, why, recurs)
+				return 2
+			}
+			agg.History = true
+			agg.Msg = "[history-dependent: fails only after the calls that precede it in the sub-check run; reproduced in 3 of 3 runs of the sub-check] " + agg.Msg
 		}
 		if ke, isKnown := known[agg.Class]; isKnown {
 			knownHits++
@@ -393,6 +423,9 @@ type replayFile struct {
 	Msg      string          `json:"msg"`
 	Count    int64           `json:"count"`
 	Case     json.RawMessage `json:"case"`
+	// HistoryDependent: the case fails only as part of a run of the whole sub-check;
+	// --replay then re-runs that sub-check and looks for the class.
+	HistoryDependent bool `json:"history_dependent,omitempty"`
 }
 
 func writeReplay(prop string, agg *classAgg) (string, error) {
@@ -404,7 +437,7 @@ func writeReplay(prop string, agg *classAgg) (string, error) {
 	if err != nil {
 		return "", err
 	}
-	rf := replayFile{Property: prop, Sub: agg.Sub, Class: agg.Class, Msg: agg.Msg, Count: agg.Count, Case: cb}
+	rf := replayFile{Property: prop, Sub: agg.Sub, Class: agg.Class, Msg: agg.Msg, Count: agg.Count, Case: cb, HistoryDependent: agg.History}
 	b, _ := json.MarshalIndent(rf, "", " ")
 	path := filepath.Join(dir, slug(agg.Sub)+"-"+slug(agg.Class)+".json")
 	return path, os.WriteFile(path, b, 0o644)
@@ -461,6 +494,21 @@ func replay(chk *Check, tier, path string) int {
 				fmt.Fprintln(os.Stderr, "harness error:", err)
 				return 2
 			}
+		}
+		if rf.HistoryDependent {
+			_, _, cls, err := runSub(sub, tier, time.Now().Add(deadlineFor(tier)))
+			if err != nil {
+				fmt.Fprintln(os.Stderr, "harness error:", err)
+				return 2
+			}
+			fmt.Printf("replay %s/%s (history-dependent: whole sub-check re-run)\n", chk.Property, sub.Name)
+			if a := cls[rf.Class]; a != nil {
+				fmt.Printf("  finding class=%s count=%d: %s\n", a.Class, a.Count, a.Msg)
+				fmt.Printf("VIOLATION property=%s replay=%s\n", chk.Property, path)
+				return 1
+			}
+			fmt.Println("  no finding of that class: the sub-check passes on this tree")
+			return 0
 		}
 		c := sub.NewCase()
 		if err := json.Unmarshal(rf.Case, c); err != nil {
